@@ -18,7 +18,7 @@
     uint16_t p##CpuToBe16(uint16_t); uint32_t p##CpuToBe32(uint32_t); uint64_t p##CpuToBe64(uint64_t); \
     uint16_t p##LeToCpu16(uint16_t); uint32_t p##LeToCpu32(uint32_t); uint64_t p##LeToCpu64(uint64_t); \
     uint16_t p##BeToCpu16(uint16_t); uint32_t p##BeToCpu32(uint32_t); uint64_t p##BeToCpu64(uint64_t); \
-    int p##selected_big_endian(void);
+    int p##selected_big_endian(void); unsigned p##const_calls(uint64_t*, uint64_t*, unsigned char*, unsigned char*, unsigned);
 DECL(le_) DECL(be_)
 
 static vp_ctx_t g_ctx;
@@ -118,6 +118,23 @@ int main(void)
             for (uint32_t l = 0; l < 8; l++) check64(c, ~((uint64_t)0xff << (8 * l)));
         }
         for (uint64_t i = 0; i < nrand / parts; i++) check64(c, vp_rng_next(&c->rng));
+    }
+    if (part == 0 && width == 16) {
+        /* literal-argument calls (constant-folding / __builtin_constant_p paths), both helper sets */
+        static uint64_t arg[512], res[512]; static unsigned char fn[512], bits[512];
+        static const char* const fnn[] = { "Bswap", "CpuToLe", "CpuToBe", "LeToCpu", "BeToCpu" };
+        for (int set = 0; set < 2; set++) {
+            unsigned n = set ? be_const_calls(arg, res, fn, bits, 512) : le_const_calls(arg, res, fn, bits, 512);
+            for (unsigned i = 0; i < n; i++) {
+                int nb = bits[i] / 8;
+                uint64_t R = rev(arg[i], nb), exp;
+                int swaps = (fn[i] == 0) || (set == 0 ? (fn[i] == 2 || fn[i] == 4) : (fn[i] == 1 || fn[i] == 3));
+                exp = swaps ? R : arg[i];
+                c->evals++; c->ops++;
+                if (res[i] != exp) fail(c, set ? "bigendian-branch" : "native", fnn[fn[i]], bits[i], "wrong-result-for-constant-argument", arg[i], res[i], exp);
+            }
+            vp_stat(c, set ? "bo.const_calls_bigendian_branch" : "bo.const_calls_native", n);
+        }
     }
     if (part == 0) {
         c->outn = 0; o_s(c, "X|{\"width\":"); o_u(c, width); o_s(c, ",\"x\":\"0x0123456789abcdef\",\"native_CpuToBe64_image\":\""); o_x(c, image_be(le_CpuToBe64(0x0123456789abcdefull), 8));
